@@ -18,8 +18,8 @@ m = dict(version=1, setup_cmd="./setup.sh",
                     enable="no hooks are needed or present: every checked function is observable through the public API (to_base/from_base are new/get; change_base is observable through mixed-base +)",
                     baseline_off_cmd="cd /repo && cargo nextest run --workspace --no-fail-fast --offline", source_commits=[], add_only=True),
          engines=[dict(name="lean4-proof+correspondence", path="/verif/check", serves_properties=sorted(md.CHECKS),
-                       kind_free_text="Lean 4 model + theorems (lake project /verif/lean); python translator (/verif/translate) regenerating the table part of the model from /repo/src on every run; Rust harness (/verif/harness) piping cases from the real crate into the compiled Lean driver, which recomputes each observed output with the model and evaluates the property oracle on it")],
-         checks=checks, notes="see DESIGN.md; known_findings.json lists fixed defects (three fix: commits in /repo) and open findings", not_applicable=na)
+                       kind_free_text="Lean 4 model + theorems (lake project /verif/lean); python translator (/verif/translate) regenerating the tables AND the function bodies / impl signatures / impl, cfg and trait-method inventories / feature gates of the model from /repo/src on every run (BExpr for straight-line bodies, Rx for control flow); Rust harness (/verif/harness) piping cases from the real crate into the compiled Lean driver, which recomputes each observed output with the model and evaluates the property oracle on it")],
+         checks=checks, notes="see DESIGN.md §0 (status, findings, false alarms, seeded-change matrices of eleven batches, negative controls) and §7 (trusted base); known_findings.json lists fixed defects (five fix: commits in /repo) and open findings; seeded/ holds 95 confirmed breaking changes and 2 benign controls with the checks that catch them", not_applicable=na)
 json.dump(m, open(os.path.join(os.path.dirname(os.path.abspath(__file__)), 'MANIFEST.json'), 'w'), indent=1)
 try:
     import jsonschema
